@@ -36,6 +36,12 @@ theorem inv5_srcRet {cfg : Cfg} {s s' : State} (ev : _) {n : Nat} (hn : SizeCfg 
   obtain ⟨hn1, hn2⟩ := hn
   unfold_step at h <;> (repeat' split at h) <;> cases h <;> close_inv
 
+theorem inv5_srcCancelErr {cfg : Cfg} {s s' : State} (w : _) {n : Nat} (hn : SizeCfg cfg n) (hi : Inv5 n cfg s)
+    (h : step good cfg s (.srcCancelErr w) = some s') : Inv5 n cfg s' := by
+  obtain ⟨s1, s2, s3, s4, s5⟩ := hi
+  obtain ⟨hn1, hn2⟩ := hn
+  unfold_step at h <;> (repeat' split at h) <;> cases h <;> close_inv
+
 theorem inv5_nextCall {cfg : Cfg} {s s' : State} (live : _) {n : Nat} (hn : SizeCfg cfg n) (hi : Inv5 n cfg s)
     (h : step good cfg s (.nextCall live) = some s') : Inv5 n cfg s' := by
   obtain ⟨s1, s2, s3, s4, s5⟩ := hi
@@ -168,6 +174,7 @@ theorem inv5_step {cfg : Cfg} {s s' : State} {l : Label} {n : Nat} (hn : SizeCfg
     (h : step good cfg s l = some s') : Inv5 n cfg s' := by
   cases l with
   | srcRet ev => exact inv5_srcRet ev hn hi h
+  | srcCancelErr w => exact inv5_srcCancelErr w hn hi h
   | nextCall live => exact inv5_nextCall live hn hi h
   | ctxExpire => exact inv5_ctxExpire hn hi h
   | tick d => exact inv5_tick d hn hi h
